@@ -27,11 +27,12 @@ Candidates ==
   \cup (IF "ChangeCoordinator" \in OpKinds THEN {[op |-> "ChangeCoordinator", g |-> g, coord |-> k] : g \in GroupIds, k \in Coords} ELSE {})
   \cup (IF "PublishActivity" \in OpKinds THEN {[op |-> "PublishActivity", i |-> applied]} ELSE {})
 
-\* a shrink only makes sense for an ISR member that is not the leader, an
-\* expand for a replica outside the ISR (what partition leaders propose)
+\* a partition leader never shrinks itself out; requests may be retried, so a
+\* shrink of a replica that is already out / an expand of one that is already in
+\* are part of the valid sequences
 Sensible(o) ==
-  CASE o.op = "ShrinkISR" -> o.r \in Part(o.s, o.p).isr \ {Part(o.s, o.p).leader}
-    [] o.op = "ExpandISR" -> o.r \notin Part(o.s, o.p).isr
+  CASE o.op = "ShrinkISR" -> o.r # Part(o.s, o.p).leader     \* incl. a retried shrink of a replica already out
+    [] o.op = "ExpandISR" -> TRUE                               \* incl. a retried expand of a replica already in
     [] o.op = "Resume" -> o.pids \subseteq PidsOf(o.s)
     [] o.op = "PublishActivity" -> applied > 0 /\ lastPub < applied
     [] OTHER -> TRUE
@@ -55,6 +56,14 @@ MCPersist == DoPersist /\ last' = [a |-> "Persist"] /\ UNCHANGED <<log, nSnap, n
 MCRestart ==
   /\ nRestart < MaxRestarts /\ applied > 0 /\ DoRestart
   /\ nRestart' = nRestart + 1 /\ last' = [a |-> "Restart"] /\ UNCHANGED <<log, nSnap>>
+MCInstall ==
+  /\ nRestart < MaxRestarts /\ applied > 0 /\ DoInstall
+  /\ nRestart' = nRestart + 1 /\ last' = [a |-> "Install"] /\ UNCHANGED <<log, nSnap>>
+MCCatchup ==
+  /\ mode = "catchup" /\ applied < Len(log)
+  /\ DoCatchup(log[applied + 1])
+  /\ last' = [a |-> "Catchup", o |-> log[applied + 1]] /\ UNCHANGED <<log, nSnap, nRestart>>
+MCCaughtUp == applied = Len(log) /\ DoCaughtUp /\ last' = [a |-> "CaughtUp"] /\ UNCHANGED <<log, nSnap, nRestart>>
 MCRestore == DoRestore /\ last' = [a |-> "Restore"] /\ UNCHANGED <<log, nSnap, nRestart>>
 MCFinish(ord) == applied = Len(log) /\ DoFinish(ord) /\ last' = [a |-> "Finish"] /\ UNCHANGED <<log, nSnap, nRestart>>
 MCGoLive == applied = Len(log) /\ DoGoLive /\ last' = [a |-> "GoLive"] /\ UNCHANGED <<log, nSnap, nRestart>>
@@ -73,6 +82,9 @@ MCNext ==
   \/ \E ord \in [GroupIds -> AllCPerms] : GoodSnapOrder(ord) /\ MCSnapshot(SnapOrd(ord))
   \/ MCPersist
   \/ MCRestart
+  \/ MCInstall
+  \/ MCCatchup
+  \/ MCCaughtUp
   \/ MCRestore
   \/ \E ord \in [GroupIds -> AllSPerms] : GoodTombOrder(ord) /\ MCFinish(ord)
   \/ MCGoLive
